@@ -15,6 +15,7 @@ PARTIAL = ["the theorems are proved for the protocol-decision layer of Model/Inb
            "carried by the correspondence run only"]
 USES_GEN = True
 WANT = ("C15",)
+PROPS_FILES = ["C15", "C15sink"]
 
 
 def parts(tier, rng):
